@@ -231,4 +231,22 @@ theorem weighted_variance (w y : ℕ → ℝ) (lo hi : ℕ) (m : ℝ) (hW : psum
   field_simp
   ring
 
+/-- row_mean_bounds: the mean of m >= 1 terms lies between any bounds of the terms -/
+theorem mean_bounds (a : ℕ → ℝ) (m : ℕ) (lo hi : ℝ) (hm : 1 ≤ m) (h : ∀ i, i < m → lo ≤ a i ∧ a i ≤ hi) :
+    lo ≤ psum a 0 m / m ∧ psum a 0 m / m ≤ hi := by
+  have hpos : (0 : ℝ) < m := by exact_mod_cast hm
+  have hlo : lo * m ≤ psum a 0 m := by
+    unfold psum
+    have : ∑ _i ∈ Finset.Ico 0 m, lo ≤ ∑ i ∈ Finset.Ico 0 m, a i :=
+      Finset.sum_le_sum (fun i hi' => (h i (Finset.mem_Ico.mp hi').2).1)
+    simpa [mul_comm] using this
+  have hhi : psum a 0 m ≤ hi * m := by
+    unfold psum
+    have : ∑ i ∈ Finset.Ico 0 m, a i ≤ ∑ _i ∈ Finset.Ico 0 m, hi :=
+      Finset.sum_le_sum (fun i hi' => (h i (Finset.mem_Ico.mp hi').2).2)
+    simpa [mul_comm] using this
+  constructor
+  · rw [le_div_iff₀ hpos]; exact hlo
+  · rw [div_le_iff₀ hpos]; exact hhi
+
 end Pyvc
